@@ -1280,6 +1280,28 @@ Proof.
   unfold run. apply erase_run_from; try apply dir_ok_init. repeat split.
 Qed.
 
+Lemma step_reply_view cfg h o : reply_view cfg h (reply_of (obs_at cfg h o)) = true.
+Proof.
+  unfold obs_at.
+  destruct o as [c| |k|k sc|k|succ|k|k|k]; simpl.
+  - destruct c; simpl; unfold do_retire, do_exit; try reflexivity;
+      try (destruct (nst (final cfg h)); try destruct (sup (final cfg h)); reflexivity).
+    unfold nodes_view. apply andb_true_iff. split; apply forallb_forall.
+    + intros n I. apply hosted_names in I. rewrite services_view, I.
+      destruct (reported h n); simpl; apply eqb_reflx.
+    + intros [k x] I. simpl.
+      apply (in_aget _ _ _ (sv_sorted _ _ _ _ _ (i_sv _ _ _ _ (inv_final cfg h)))) in I.
+      rewrite services_view in I. destruct (hosted cfg k); [reflexivity | discriminate].
+  - destruct (query_list cfg (final cfg h) (akeys (svcs (final cfg h)))). reflexivity.
+  - destruct (query_one cfg (final cfg h) k). reflexivity.
+  - destruct sc; [|reflexivity]. destruct (service_retired (final cfg h) k). reflexivity.
+  - destruct (service_retired (final cfg h) k). reflexivity.
+  - destruct (pend (final cfg h)); [reflexivity|]. destruct succ; reflexivity.
+  - reflexivity.
+  - reflexivity.
+  - reflexivity.
+Qed.
+
 Lemma check_model cfg h o : check cfg h (run cfg h) o (obs_at cfg h o) = true.
 Proof.
   pose proof (inv_final cfg h) as I. pose proof (inv_final cfg (h ++ [o])) as I'.
@@ -1300,6 +1322,10 @@ Proof.
     destruct (all_reported cfg (h ++ [o])); [reflexivity|]. rewrite andb_false_r in R. lia.
   - rewrite <- state_published. apply step_names_state.
   - apply check_op_model.
+  - pose proof (i_ret _ _ _ _ I') as R. pose proof (i_nst _ _ _ _ I') as N.
+    rewrite last_pub_snoc in N. rewrite <- R, N.
+    destruct (3 <=? rank (last (pubs_ob (obs_at cfg h o)) (last_pub (run cfg h)))); reflexivity.
+  - apply step_reply_view.
 Qed.
 
 Lemma holds_from_model cfg h2 : forall h1,
@@ -1327,4 +1353,29 @@ Proof.
   - destruct (Z.lt_ge_cases (rank (last_pub (run cfg h))) 3) as [L|G]; [exact L|].
     apply retired_iff in G. destruct G as [_ G]. rewrite (G n H) in R. discriminate.
   - rewrite services_view, H, R. reflexivity.
+Qed.
+
+(* ---------------------------------------------------------------- reports and declarations are kept *)
+Lemma reported_app h k n : reported h n = true -> reported (h ++ k) n = true.
+Proof. intro R. unfold reported in *. rewrite existsb_app, R. reflexivity. Qed.
+
+(* a "retired" report is never lost: whatever follows - retire accepted again, refused commands,
+   topology changes - the service stays booked as retired *)
+Lemma reports_are_kept cfg h k n :
+  hosted cfg n = true -> reported h n = true ->
+  aget n (svcs (final cfg (h ++ k))) = Some (Retired, declared cfg (h ++ k) n).
+Proof. intros H R. rewrite services_view, H, (reported_app h k n R). reflexivity. Qed.
+
+(* retirement support is declared by answering the support query and by nothing else: an
+   operation that asks nobody changes no service's declaration nor the node's readiness *)
+Lemma support_only_by_query cfg h o :
+  (forall n, asks o n = false) ->
+  (forall n, declared cfg (h ++ [o]) n = declared cfg h n) /\
+  sup (final cfg (h ++ [o])) = sup (final cfg h).
+Proof.
+  intro A.
+  assert (D : forall n, declared cfg (h ++ [o]) n = declared cfg h n).
+  { intro n. unfold declared. rewrite queried_snoc, A. simpl. rewrite orb_false_r. reflexivity. }
+  split; [exact D|]. rewrite !support_view. f_equal. unfold all_declared.
+  apply forallb_ext_in. intros n _. apply D.
 Qed.
